@@ -13,35 +13,23 @@
 #include <QDomElement>
 #include <QSharedData>
 
+#include <tuple>
+
 using namespace QXmpp::Private;
+
+// XEP-0115 section 5.1 sorts with the "i;octet" collation (RFC 4790): compare the UTF-8 octets,
+// not the UTF-16 code units QString::operator< looks at (they differ for characters above U+FFFF).
+static bool octetLessThan(const QString &s1, const QString &s2)
+{
+    return s1.toUtf8() < s2.toUtf8();
+}
 
 static bool identityLessThan(const QXmppDiscoveryIq::Identity &i1, const QXmppDiscoveryIq::Identity &i2)
 {
-    if (i1.category() < i2.category()) {
-        return true;
-    } else if (i1.category() > i2.category()) {
-        return false;
-    }
-
-    if (i1.type() < i2.type()) {
-        return true;
-    } else if (i1.type() > i2.type()) {
-        return false;
-    }
-
-    if (i1.language() < i2.language()) {
-        return true;
-    } else if (i1.language() > i2.language()) {
-        return false;
-    }
-
-    if (i1.name() < i2.name()) {
-        return true;
-    } else if (i1.name() > i2.name()) {
-        return false;
-    }
-
-    return false;
+    const auto key = [](const QXmppDiscoveryIq::Identity &i) {
+        return std::make_tuple(i.category().toUtf8(), i.type().toUtf8(), i.language().toUtf8(), i.name().toUtf8());
+    };
+    return key(i1) < key(i2);
 }
 
 class QXmppDiscoveryIdentityPrivate : public QSharedData
@@ -387,7 +375,7 @@ QByteArray QXmppDiscoveryIq::verificationString() const
     QList<QXmppDiscoveryIq::Identity> sortedIdentities = d->identities;
     std::sort(sortedIdentities.begin(), sortedIdentities.end(), identityLessThan);
     QStringList sortedFeatures = d->features;
-    std::sort(sortedFeatures.begin(), sortedFeatures.end());
+    std::sort(sortedFeatures.begin(), sortedFeatures.end(), octetLessThan);
     sortedFeatures.removeDuplicates();
     for (const auto &identity : sortedIdentities) {
         S += identity.category() + u'/' + identity.type() + u'/' + identity.language() + u'/' + identity.name() + u'<';
@@ -408,13 +396,13 @@ QByteArray QXmppDiscoveryIq::verificationString() const
             S += field.value().toString() + u"<";
 
             QStringList keys = fieldMap.keys();
-            std::sort(keys.begin(), keys.end());
+            std::sort(keys.begin(), keys.end(), octetLessThan);
             for (const auto &key : keys) {
                 const QXmppDataForm::Field field = fieldMap.value(key);
                 S += key + u'<';
                 if (field.value().canConvert<QStringList>()) {
                     QStringList list = field.value().toStringList();
-                    list.sort();
+                    std::sort(list.begin(), list.end(), octetLessThan);
                     S += list.join(u'<');
                 } else {
                     S += field.value().toString();
